@@ -74,6 +74,7 @@ Definition clean (fs : fsys) (E : fpath) : Prop :=
   forall f m i, reachable fs E f -> find_file fs f = Some m -> In i (m_imports m) ->
     is_std (i_path i) = false ->
     i_path i <> [] /\ exists g fm mg, meaning fs (dir_of E) f i = Some (g, fm) /\ find_file fs g = Some mg /\
+      m_fault mg = 0 /\
       (forall l s, fm = FSymbols l -> In s l -> In s (pub_names mg)).
 
 (* decidable and sufficient: the same for every file of the tree, reachable or not *)
@@ -84,7 +85,8 @@ Definition clean_b (fs : fsys) (root : list ident) : bool :=
       match meaning fs root (fst fm) i with
       | Some (g, f) =>
           match find_file fs g with
-          | Some mg => match f with
+          | Some mg => (m_fault mg =? 0) &&
+                       match f with
                        | FSymbols l => forallb (fun s => mem_id s (pub_names mg)) l
                        | _ => true
                        end
@@ -174,17 +176,18 @@ Definition quals_ok_b (fs : fsys) (root : list ident) : bool :=
 
 (* ---- REPL sessions: the module top levels that ran, over all inputs of the session *)
 (* an entry's / a REPL input's own event has key []; a module's event the dotted path it was first
-   imported under *)
-Definition is_mod_event (ev : event) : bool := negb (key_eqb (ev_key ev) []).
+   imported under; ev_done = its top level ran to completion (a module whose top level raised is not
+   initialised and may be loaded again) *)
+Definition is_mod_event (ev : event) : bool := negb (key_eqb (ev_key ev) []) && ev_done ev.
 Definition mtrace_of (evs : list event) : list fpath := map ev_file (filter is_mod_event evs).
 Definition session_events (rs : list (res (list event))) : list event :=
-  flat_map (fun r => match r with Ok evs => evs | Err _ evs => evs | Fuel => [] end) rs.
+  flat_map (fun r => match r with Ok evs => evs | Err _ s => events s | Fuel => [] end) rs.
 
 (* ---- concrete trees used by the refutation theorems, the regression examples (trees that refuted
         the property before the repairs) and the non-vacuity example of Props/C19.v *)
 Definition imp (p : key) (f : form) : import := {| i_path := p; i_form := f |}.
 Definition D (n : ident) (b : bool) : def := {| d_name := n; d_pub := b; d_fn := N.even n |}.
-Definition M (is : list import) (ds : list def) : module := {| m_imports := is; m_defs := ds |}.
+Definition M (is : list import) (ds : list def) : module := {| m_imports := is; m_defs := ds; m_fault := 0 |}.
 Definition E9 : fpath := [9].
 
 
